@@ -177,6 +177,13 @@ def _cooc_fixed(est):
         cs.append(_cooc(est, "em-pruned", BASE_X, {"n_iter": 2, "epsilon": 0.2, "window_radii": 2}))
         cs.append(_cooc(est, "em-iter", BASE_X, {"n_iter": 2, "window_radii": 3}))
     cs.append(_cooc(est, "winfn-variable", BASE_X, {"window_functions": "variable", "window_radii": 3}, Xt=BASE_X[:1]))
+    if est == "token":
+        # frequency table without a single occurring token: every token pruned (mask set) / a supplied dictionary
+        # none of whose tokens occurs; the 'variable' window function then has no frequency to scale by
+        cs.append(_cooc(est, "winfn-variable-empty-table", BASE_X, {"window_functions": "variable", "window_radii": 3,
+                                                                   "min_occurrences": 1000, "mask_string": "MASK"}, Xt=BASE_X[:1]))
+        cs.append(_cooc(est, "winfn-variable-empty-table", BASE_X, {"window_functions": "variable", "window_radii": 3,
+                                                                   "token_dictionary": {"q": 0, "r": 1, "s": 2}}, Xt=BASE_X[:1]))
     if not lean:
         cs.append(_cooc(est, "n-threads", BASE_X + LEN1_X, {"n_threads": 2, "window_radii": 2, "n_iter": 1}))
     # D30: the supplied dictionary's trailing tokens y, z never occur in the training data; transform data uses them
@@ -403,6 +410,12 @@ def _seq_fixed():
         _sw("pair-window-sample", SERIES, SERIES[:1], window_width=4, window_sample=[0, 2]),
         _sw("array-window-sample", SERIES, None, window_width=4, window_sample=[3, 1, 0]),
         _sw("pad-stride", SERIES, None, window_width=3, window_stride=2, pad_width=1),
+        # stride that does not divide (L - width), with a partial sample: a window count that is one too large
+        # reads past the end of the series instead of failing a shape check
+        _sw("stride-sample-tail", [[float(i) for i in range(12)], [float(i * i) for i in range(9)]], [[1.0, 2.0, 3.0, 4.0, 5.0, 6.0, 7.0]],
+            window_width=5, window_stride=3, window_sample=[0, 2, 4]),
+        _sw("stride-sample-tail", [[float(i) for i in range(11)]], None, window_width=4, window_stride=2, window_sample=[3, 0]),
+        _sw("stride-sample-tail", [[float(i) for i in range(10)]], None, window_width=3, window_stride=4, window_sample=2),
         _sw("int-window-sample", SERIES, SERIES[:1], window_width=3, window_sample=5),
         _sw("int-window-sample", SERIES, None, window_width=4, window_sample=2),
         _sw("width-gt-series", [[1.0, 2.0, 3.0], [1.0, 2.0]], None, window_width=5),
@@ -463,7 +476,9 @@ def _seq_random(rng):
         elif cls == "width-gt-series":
             Xt = [[1.0] * (w - 1), [1.0] * w]
         elif cls == "pad-stride":
-            kw.update(window_stride=rng.choice([1, 2]), pad_width=rng.choice([1, 2]))
+            kw.update(window_stride=rng.choice([1, 2, 3]), pad_width=rng.choice([1, 2]))
+            if w >= 2 and rng.random() < 0.6:
+                kw["window_sample"] = sorted(rng.sample(range(w), rng.randint(1, w - 1)))
         return _sw(cls, X, Xt, **kw)
     T = [_rand_seq(rng, rng.randint(0, 6), "abc") for _ in range(rng.randint(2, 4))] + [["a", "b", "c", "a", "b"]]
     if u < 0.7:
